@@ -622,6 +622,9 @@ def shrink(stmts, srv, cat_fn=None):
         return stmts
     cur = list(stmts)
     base = prelude_len(cur)
+    # the failure may sit in an earlier statement: drop trailing statements first
+    while len(cur) - base > 1 and mismatch_category(cur[:-1], srv) == cat0:
+        cur = cur[:-1]
     # drop statements
     i = base
     while i < len(cur) - 1:
